@@ -170,8 +170,14 @@ class Tr:
                 return al.FUN("sign", self.t(a[0], depth + 1))
             if base == "power" and len(a) == 2:
                 return self.power(self.t(a[0], depth + 1), a[1])
-            if base in ("diag", "asarray", "array", "float64"):
+            if base in ("diag", "asarray", "array", "float64", "copy", "ascontiguousarray", "atleast_1d"):
                 return self.t(a[0], depth + 1)
+            if base in ("negative",) and len(a) == 1 and not node.keywords:
+                return -self.t(a[0], depth + 1)
+        if isinstance(node.func, ast.Attribute) and node.func.attr in ("copy", "astype", "ravel", "flatten") and not isinstance(node.func.value, ast.Name) or \
+                (isinstance(node.func, ast.Attribute) and node.func.attr in ("copy", "astype", "ravel", "flatten") and isinstance(node.func.value, ast.Name) and node.func.value.id not in ("np", "numpy", "copy")):
+            # x.copy() / x.astype(float): the same values
+            return self.t(node.func.value, depth + 1)
         if f in ("_sanitize_derivatives", "float") and len(a) == 1:
             return self.t(a[0], depth + 1)
         raise Untranslatable(f"call not in the rule-term table: {src(node)[:70]}")
